@@ -2,7 +2,7 @@
 // Metamorphic relation between two runs of gram's full pipeline; no reference model.
 use crate::eterm::{E, Op};
 use crate::fw::{Ctx, Plan, Prop, Tier, sec};
-use crate::gen_prog::{GT, Mode, Program, gen_program, type_to_h};
+use crate::gen_prog::{GT, Mode, Program, gen_program_without_rec_families, type_to_h};
 use crate::hast::{H, hb};
 use crate::pipe::{Front, Obs, Opts, Run, StuckClass, observe};
 use crate::printer::{Style, print};
@@ -13,7 +13,8 @@ use crate::util::{Json, Rng, clip, hash_str};
 pub struct C19P;
 pub static C19: C19P = C19P;
 
-pub const REWRITES: [&str; 9] = [
+pub const REWRITES: [&str; 10] = [
+    "unused-definition-inside-group",
     "rename-binders",
     "redundant-parentheses",
     "unused-definition-in-front",
@@ -202,6 +203,29 @@ pub fn apply_rewrite(h: &H, kind: &str, r: &mut Rng, root_ty: &GT, explicit: boo
             let ann = if explicit { Some(hb(H::Int)) } else { None };
             // in front of a group the definition joins the group; elsewhere it forms its own
             Some(H::Let(name, ann, hb(H::lit(0)), hb(h.clone())))
+        }
+        "unused-definition-inside-group" => {
+            // directly after some definition of some group, anywhere in the program: in the middle
+            // or at the end of that group; a literal or a function (both are values: nothing about
+            // evaluation order or availability changes)
+            let name = fresh("unused");
+            let fun = r.chance(1, 2);
+            let (ann, def) = if fun {
+                let y = fresh("uy");
+                (if explicit { Some(hb(H::Pi("_".into(), false, hb(H::Int), hb(H::Int)))) } else { None }, H::Lam(y.clone(), false, Some(hb(H::Int)), hb(H::Var(y))))
+            } else {
+                (if explicit { Some(hb(H::Int)) } else { None }, H::lit(0))
+            };
+            for _ in 0..10 {
+                let t = r.usize(n);
+                if let Some(x) = at_node(h, t, &mut |x, _| match x {
+                    H::Let(nm, a, d, b) => Some(H::Let(nm.clone(), a.clone(), d.clone(), hb(H::Let(name.clone(), ann.clone(), hb(def.clone()), b.clone())))),
+                    _ => None,
+                }) {
+                    return Some(x);
+                }
+            }
+            None
         }
         "unused-definition-at-site" => {
             let name = fresh("unused");
@@ -469,7 +493,7 @@ impl Prop for C19P {
     fn plan(&self, tier: Tier, _seed: u64) -> Plan {
         let mut p = Plan::new(
             vec![sec("explicit-programs", tier.pick(10_000, 60_000)), sec("inferred-programs", tier.pick(4_000, 25_000))],
-            "generated programs x 10 sequences of 1-5 rewrites drawn from: consistent renaming of all binders, redundant parentheses, an unused definition in front or at a site, naming a subexpression in place, wrapping in an immediately applied annotated identity function (at the root with the program's type, at int/bool sites), wrapping in `if true then .. else ..` with an other branch that may divide by zero, swapping adjacent function definitions, hoisting closed division-free literal arithmetic into an enclosing definition; acceptance and printed value of original and rewritten program must agree (functions by head and implicit flag); non-trivial = distinct rewritten program",
+            "generated programs x 10 sequences of 1-5 rewrites drawn from: consistent renaming of all binders, redundant parentheses, an unused definition in front, at a site or directly after any definition of any group (a literal or a function), naming a subexpression in place, wrapping in an immediately applied annotated identity function (at the root with the program's type, at int/bool sites), wrapping in `if true then .. else ..` with an other branch that may divide by zero, swapping adjacent function definitions, hoisting closed division-free literal arithmetic into an enclosing definition; acceptance and printed value of original and rewritten program must agree (functions by head and implicit flag); non-trivial = distinct rewritten program",
         );
         p.assumptions = vec![
             "each rewrite carries the side condition that makes it meaning-preserving in a call-by-value language with division by zero and divergence; a parenthesised group is never placed directly in the body position of a group".into(),
@@ -477,19 +501,19 @@ impl Prop for C19P {
         ];
         p.floor_evaluations = 5_000;
         p.floor_nontrivial = 3_000;
-        p.case_timeout_s = 30;
+        p.case_timeout_s = 8;
         p
     }
     fn run_case(&self, ctx: &mut Ctx, section: &str, idx: u64) {
         let explicit = section == "explicit-programs";
         let mut r = Rng::for_case(ctx.seed, if explicit { 1 } else { 2 }, idx);
-        let p = gen_program(&mut r, if explicit { Mode::Explicit } else { Mode::Inferred });
+        let p = gen_program_without_rec_families(&mut r, if explicit { Mode::Explicit } else { Mode::Inferred });
         check(ctx, &p, idx, &mut r);
     }
     fn describe(&self, _tier: Tier, seed: u64, section: &str, idx: u64) -> String {
         let explicit = section == "explicit-programs";
         let mut r = Rng::for_case(seed, if explicit { 1 } else { 2 }, idx);
-        let p = gen_program(&mut r, if explicit { Mode::Explicit } else { Mode::Inferred });
+        let p = gen_program_without_rec_families(&mut r, if explicit { Mode::Explicit } else { Mode::Inferred });
         crate::printer::print_plain(&p.h)
     }
 }
